@@ -33,4 +33,14 @@ PROPS["C07"] = {
     "assumptions": ["bls12_381::pairing is bilinear and non-degenerate; G1, G2, GT have prime order q", "'fails for an independent key' is a probability-(1-1/q) statement: the theorem gives the exact linear condition, the harness samples it"],
 }
 
+PROPS["C08"] = {
+    "theorems": ["srpVerify_some_iff", "srpVerify_none_iff", "honest_request_accepted", "request_sign_unblind_verifies",
+                 "unblind_verifies_iff_opening", "request_signature_rejects_changed_coord", "tampered_request_rejected"],
+    "rule": "N in {1,2,3,5,8,13}; keys generated under the scripted RNG or decoded; messages over edge and random scalars; a random subset of slots with caller-chosen commitment scalars; the honest request goes through the real builder (witness recovered from accessors and response scalars, all atoms compared with the model's prover), is verified (must yield a value), the value is blind-signed (sigma2 = u(x1 + v) pins v to the proof's commitment), unblinded with the right / a wrong blinding factor and verified on the original and on every single-coordinate change; then every single-atom tampering (C, T, z_bf, each z_i by +1/-1/random/0, C and T swapped, challenge changed) must yield no value. Distinct = new request line.",
+    "explanation": "Theorems: srpVerify returns some v iff the Schnorr equation holds and then v is the proof's commitment; honest requests are accepted for every challenge; blind-sign + unblind verifies on (m', r') iff (m', r') opens the blind-signed value; hence on no tuple differing in a coordinate. Correspondence: real SignatureRequestProof / blind_sign / unblind / verify vs the model (exact), oracle = Schnorr equation evaluated in the real group.",
+    "level_text": "Proof: the only source of blind-signable values and what their signatures verify on are characterised exactly by Lean theorems for all fields, modules, pairings, lengths and inputs; tied to the Rust code by exponent-space differential runs including exhaustive single-atom tampering of every request.",
+    "level_note": "Trusted: Lean kernel + Mathlib (three standard axioms); correspondence harness; bls12_381. That VerifiedBlindedMessage cannot be constructed outside the crate is Rust visibility (pub(crate) field), mirrored in the model by srpVerify being the only producer.",
+    "assumptions": ["Rust privacy of VerifiedBlindedMessage's field", "bls12_381 group / pairing laws"],
+}
+
 NOT_APPLICABLE = {}
